@@ -1215,6 +1215,10 @@ impl InstrFormat for TimelineFormat06 {
     }
 
     fn write_instr(&self, f: &mut BinWriter, emitter: &dyn Emitter, instr: &RawInstr) -> WriteResult {
+        if (instr.time, instr.extra_arg.unwrap_or(0) as i16) == (-1, 4) {
+            // (read_instr could not tell it from the end of the timeline)
+            return Err(emitter.as_sized().emit(error!("a timeline item with time -1 and first argument 4 marks the end of the timeline in this format")));
+        }
         f.write_i16(llir::header_field(emitter, "time", instr.time)?)?;
         f.write_i16(instr.extra_arg.unwrap_or(0) as _)?;
         f.write_u16(instr.opcode)?;
